@@ -22,11 +22,13 @@ func init() { props["C10"] = hmain.Prop{Level: "model_checking", Run: c10, Repla
 // DHT through the public KV API, lists from every entry node for every prefix, and cleans
 // up through the API again (the cleanup itself is checked: the ring must list nothing).
 
-var c10Keys = []string{"a", "a/", "a/b", "ab", "b"}
-var c10Prefixes = []string{"", "a", "a/", "a/b", "ab", "b", "z"}
+var c10Keys = []string{"a", "a/", "a/b", "ab", "b", "aB", "AB/2"} // the last two differ from prefixes only in letter case
+var c10Prefixes = []string{"", "a", "a/", "a/b", "ab", "b", "z", "A", "AB", "aB", "a%", "a_"} // "a%", "a_": SQL wildcards must match literally
 
-// kinds: bit 0 simple, bit 1 children, bit 2 lease
-var c10KindNames = map[int]string{1: "simple", 2: "children", 4: "lease", 3: "simple+children", 7: "all"}
+// kinds: bit 0 simple, bit 1 children, bit 2 lease, bit 3 simple value overwritten with an
+// empty non-nil slice (holds no simple value), bit 4 simple value overwritten with nil
+var c10KindNames = map[int]string{1: "simple", 2: "children", 4: "lease", 3: "simple+children", 7: "all",
+	8: "emptied-simple", 10: "emptied-simple+children", 16: "nil-simple", 12: "emptied-simple+lease"}
 
 type c10Case struct {
 	Backend string `json:"backend"`
@@ -118,6 +120,19 @@ func c10Run(r *c10Ring, cs c10Case) (int, string) {
 				return 0, fmt.Sprintf("populate put %s: %v", c10Keys[i], err)
 			}
 		}
+		if k&(8|16) != 0 {
+			// a value, then overwritten with an empty non-nil slice / nil: no simple value is held
+			if err := entry.Put(chordlib.Ctx, key, []byte("v")); err != nil {
+				return 0, fmt.Sprintf("populate put %s: %v", c10Keys[i], err)
+			}
+			empty := make([]byte, 4)[:0]
+			if k&16 != 0 {
+				empty = nil
+			}
+			if err := nodes[(i+1)%len(nodes)].Put(chordlib.Ctx, key, empty); err != nil {
+				return 0, fmt.Sprintf("populate put-empty %s: %v", c10Keys[i], err)
+			}
+		}
 		if k&2 != 0 {
 			// children with a history: two appended, one removed again - exactly one remains
 			if err := entry.PrefixAppend(chordlib.Ctx, key, []byte("child")); err != nil {
@@ -162,7 +177,7 @@ func c10Run(r *c10Ring, cs c10Case) (int, string) {
 	for i, k := range cs.Kinds {
 		key := []byte(c10Keys[i])
 		entry := nodes[(i+1)%len(nodes)]
-		if k&1 != 0 {
+		if k&(1|8|16) != 0 {
 			entry.Delete(chordlib.Ctx, key)
 		}
 		if k&2 != 0 {
@@ -183,7 +198,7 @@ func c10Run(r *c10Ring, cs c10Case) (int, string) {
 
 func c10Cases(thorough bool, backendName string, size int) []c10Case {
 	var out []c10Case
-	kinds := []int{1, 2, 4, 3, 7}
+	kinds := []int{1, 2, 4, 3, 7, 8, 10, 16, 12}
 	n := len(c10Keys)
 	for mask := 1; mask < 1<<n; mask++ {
 		var present []int
@@ -313,7 +328,7 @@ func c10(c *report.Check) {
 	c.Set("evaluations", evals)
 	c.Set("cases", cases)
 	c.Set("distinct_nontrivial", dist.N())
-	c.Set("rule", fmt.Sprintf("real stable rings of %v nodes (real chord.Hash placement) on each backend %v; every non-empty subset of the keys %v with kind patterns over {simple, children, lease, simple+children, all} (rotations; thorough: all patterns for subsets <= 3 on memory) stored through the DHT API via rotating entry nodes; ListKeys from every entry node for every prefix %v compared as a multiset of (key, kind) with the model; then everything is deleted through the API and the ring must list nothing; class = (backend, ring size, number of keys, kinds present)", sizes, backends, c10Keys, c10Prefixes))
+	c.Set("rule", fmt.Sprintf("real stable rings of %v nodes (real chord.Hash placement) on each backend %v; every non-empty subset of the keys %v with kind patterns over {simple, children, lease, simple+children, all, value overwritten by an empty non-nil slice (alone / with children / with lease), value overwritten by nil} (rotations; thorough: all patterns for subsets <= 3 on memory) stored through the DHT API via rotating entry nodes; ListKeys from every entry node for every prefix %v compared as a multiset of (key, kind) with the model; then everything is deleted through the API and the ring must list nothing; class = (backend, ring size, number of keys, kinds present)", sizes, backends, c10Keys, c10Prefixes))
 	c.Set("samples", dist.Samples)
 	c.Set("exhaustive", true)
 	c.Assume("direct calls between nodes; ring stabilised to a pointer fix-point before the cases run", "leases are acquired with a one-hour TTL (no expiry during the run)")
